@@ -6,8 +6,12 @@ import (
 	"fmt"
 	"io"
 	"math/rand"
+	"os"
+	"path/filepath"
 	"runtime"
 	"runtime/debug"
+	"strconv"
+	"strings"
 	"sync"
 	"sync/atomic"
 	"time"
@@ -367,6 +371,11 @@ func specialC10(seed int64, thorough bool, tmp string) *Special {
 		if len(sp.Samples) < 2 {
 			sp.Samples = append(sp.Samples, in)
 		}
+	}
+	if gd := os.Getenv("VERIF_GOLDEN_DIR"); gd != "" {
+		k := CheckGolden(gd, sp)
+		sp.Extra["golden_files_checked"] = k
+		sp.Evaluations += k
 	}
 	sp.Extra["cross_reads"] = crossReads
 	sp.Extra["inputs_where_both_writers_emit_identical_bytes"] = sameBytes
@@ -1423,4 +1432,94 @@ func specialC09(seed int64, thorough bool) *Special {
 	sp.Extra["rounds_with_overlapping_readers"] = overlapRounds
 	sp.Extra["read_calls_compared"] = totalCalls
 	return sp
+}
+
+// ---------------------------------------------------------------------------
+// golden corpus: files written once by the frozen reference writer, committed
+// with the dump the reference reader produced at that time
+// ---------------------------------------------------------------------------
+
+// GoldenInputs builds the fixed inputs of the golden corpus with an implementation.
+func GoldenInputs(impl *Impl) map[string][]byte {
+	out := map[string][]byte{}
+	g := NewGen(20261001)
+	for i, nd := range []int{0, 1, 7, 33, 140, 300} {
+		cm := ChunkModes[i%len(ChunkModes)]
+		b := g.Batch(BatchOpts{NDocs: nd})
+		f, seg, err := buildBytes(impl, b, cm)
+		if err != nil {
+			continue
+		}
+		out[fmt.Sprintf("build-%d-cm%d", nd, cm)] = f
+		if nd >= 7 {
+			b2 := g.Batch(BatchOpts{NDocs: nd / 2, IDPrefix: "x"})
+			seg2, _, err := impl.New(b2.Documents(), HarnessNorm, 3)
+			if err != nil {
+				continue
+			}
+			m, _, err := mergeBytes(impl, []segment.Segment{seg, seg2}, []*roaring.Bitmap{bitmapOf(g.subset(nd, 4)), nil}, ChunkModes[(i+3)%len(ChunkModes)])
+			if err == nil {
+				out[fmt.Sprintf("merge-%d", nd)] = m
+			}
+		}
+	}
+	return out
+}
+
+// CheckGolden reads every committed golden file with both readers and compares
+// with the committed dump.
+func CheckGolden(dir string, sp *Special) int {
+	names, _ := filepath.Glob(filepath.Join(dir, "*.ice"))
+	n := 0
+	for _, name := range names {
+		file, err := os.ReadFile(name)
+		if err != nil {
+			continue
+		}
+		wantRaw, err := os.ReadFile(strings.TrimSuffix(name, ".ice") + ".dump")
+		if err != nil {
+			continue
+		}
+		var want W
+		for _, t := range strings.Fields(string(wantRaw)) {
+			v, _ := strconv.ParseUint(t, 10, 64)
+			want = append(want, v)
+		}
+		n++
+		in := map[string]interface{}{"golden_file": filepath.Base(name)}
+		if d, err := safeDump(Current, file); err != nil {
+			sp.failf(in, "the current reader cannot read the reference-written golden file: %v", err)
+		} else if !eqW(d, want) {
+			sp.failf(in, "the current reader reads the reference-written golden file differently from the committed dump (first difference at %d)", firstDiff(d, want))
+		}
+		if d, err := safeDump(Reference, file); err != nil || !eqW(d, want) {
+			sp.failf(in, "the frozen reference reader no longer reproduces the committed dump of its own golden file (the frozen copy was edited?)")
+		}
+	}
+	return n
+}
+
+// WriteGolden (re)creates the golden corpus; used once, the files are committed.
+func WriteGolden(dir string) error {
+	os.MkdirAll(dir, 0o755)
+	for name, f := range GoldenInputs(Reference) {
+		d, err := safeDump(Reference, f)
+		if err != nil {
+			return fmt.Errorf("%s: %v", name, err)
+		}
+		if err := os.WriteFile(filepath.Join(dir, name+".ice"), f, 0o644); err != nil {
+			return err
+		}
+		var sb strings.Builder
+		for i, x := range d {
+			if i > 0 {
+				sb.WriteByte(' ')
+			}
+			sb.WriteString(strconv.FormatUint(x, 10))
+		}
+		if err := os.WriteFile(filepath.Join(dir, name+".dump"), []byte(sb.String()), 0o644); err != nil {
+			return err
+		}
+	}
+	return nil
 }
